@@ -667,6 +667,17 @@ func (e *enc) trCall(n *ECall, env *Env) Val {
 			e.useBox(so)
 			return Val{T: "(" + unboxFn(so) + " (i-val " + v.T + "))", S: so}
 		}
+	case "box":
+		// box("reflect.Value", x): the interface value the compiler builds when x of the named Go type is passed as interface{}
+		if s, ok := n.Args[0].(*EStr); ok {
+			t := e.v.lookupType(s.V)
+			if t == nil {
+				e.trFail("unknown type %q", s.V)
+			}
+			v := e.tr(n.Args[1], env)
+			e.useBox(v.S)
+			return Val{T: fmt.Sprintf("(mk-iface %d (%s %s))", e.te.TagOf(t), boxFn(v.S), v.T), S: "Iface"}
+		}
 	case "addr":
 		// addr(G): the identity of a package-level variable
 		if id, ok := n.Args[0].(*EIdent); ok {
